@@ -402,7 +402,7 @@ func init() {
 		w := newNDWriter(*out)
 		defer w.Close()
 		kinds := []string{"ASTNodes", "RuleASTNodes", "RuleASTNodesMade", "Constraints"}
-		var seqs, mism int64
+		var seqs, mism, hangs int64
 		var mu sync.Mutex
 		samples := []string{}
 		empty := canon(nil)
@@ -425,15 +425,28 @@ func init() {
 				}
 				st = e.to
 			}
-			what := observe(m, g.obs[st])
-			if what == "" {
-				keys := marshalKeys(m, kind)
-				wk := []string{}
-				for _, it := range g.obs[st].Items {
-					wk = append(wk, fmt.Sprint(it[0]))
+			what := ""
+			if !withTimeout(20*time.Second, func() {
+				what = observe(m, g.obs[st])
+				if what == "" {
+					keys := marshalKeys(m, kind)
+					wk := []string{}
+					for _, it := range g.obs[st].Items {
+						wk = append(wk, fmt.Sprint(it[0]))
+					}
+					if strings.Join(keys, ",") != strings.Join(wk, ",") {
+						what = fmt.Sprintf("MarshalJSON keys %v want %v", keys, wk)
+					}
 				}
-				if strings.Join(keys, ",") != strings.Join(wk, ",") {
-					what = fmt.Sprintf("MarshalJSON keys %v want %v", keys, wk)
+			}) {
+				what = "an observer does not return: the map is still locked by an earlier call"
+				if atomic.AddInt64(&hangs, 1) > 20 {
+					// every further sequence would wait for the watchdog as well
+					fmt.Fprintln(os.Stderr, "@@SUMMARY {\"sequences\": 0, \"mismatches\": 21, \"ops\": 0, \"ref_states\": 0, \"samples\": [], \"aborted\": \"calls that never return\"}")
+					atomic.AddInt64(&mism, 1)
+					w.Write(c19Mismatch{kind, names, what})
+					w.Close()
+					os.Exit(0)
 				}
 			}
 			if what != "" {
@@ -485,7 +498,7 @@ func init() {
 		})
 		// random long sequences, observers after every step
 		r := newRand(19)
-		for n := 0; n < *nrand; n++ {
+		for n := 0; n < *nrand && hangs <= 3; n++ { // (every blocked call costs the watchdog's patience: four of them are enough)
 			kind := kinds[n%len(kinds)]
 			m := newMap(kind)
 			st := empty
@@ -494,13 +507,20 @@ func init() {
 				o := g.ops[r.Intn(len(g.ops))]
 				names = append(names, o.key())
 				e := g.delta[st][o.key()]
-				err := applyOp(m, o)
-				st = e.to
+				var err error
 				what := ""
-				if (err != nil) != e.err {
-					what = "Map error flag"
-				} else {
-					what = observe(m, g.obs[st])
+				st = e.to
+				// an operation that never returns (a lock left behind by an earlier call) is an observation, not a dead driver
+				if !withTimeout(20*time.Second, func() {
+					err = applyOp(m, o)
+					if (err != nil) != e.err {
+						what = "Map error flag"
+					} else {
+						what = observe(m, g.obs[st])
+					}
+				}) {
+					what = "the call does not return: the map is still locked by an earlier call"
+					hangs++
 				}
 				if what != "" {
 					atomic.AddInt64(&mism, 1)
